@@ -16,6 +16,7 @@ import (
 	"math/rand"
 	"reflect"
 	"sort"
+	"strconv"
 	"strings"
 	"testing"
 	"time"
@@ -92,6 +93,14 @@ type CaseSpec struct {
 	// peer
 	DutyType int `json:"duty_type"` // 0: the generator's
 	SlotAdd  int `json:"slot_add"`  // epochs added to the duty slot of the message (gater)
+	// DutySlot, when set, is the absolute slot (decimal, up to 2^64-1) of the peer message's duty;
+	// the object inside stays valid for its own epoch.
+	DutySlot string `json:"duty_slot"`
+	// Boundary, when > 0, is the first epoch of a fork: the object is placed so that its own signing
+	// epoch is Boundary (attestations: slot in the last slot of epoch Boundary-1, target epoch Boundary);
+	// item variant 3 then signs with the domain of the fork active at Boundary-1 (builder
+	// registrations, which sign with the genesis domain: with the fork active at Boundary).
+	Boundary uint64 `json:"boundary"`
 }
 
 // Deliv is one partial observed at a subscriber.
@@ -140,6 +149,9 @@ type env struct {
 	whoLog       []int // validator ids the environment callbacks resolved, in call order (-1: refused)
 	subs         [][]Deliv
 	curGen       dutygen.Gen
+	boundary     uint64
+	genesis      time.Time
+	slotDur      time.Duration
 	// components
 	vapi    *validatorapi.Component
 	fh      *fakeHost
@@ -309,7 +321,8 @@ func newEnv(t *testing.T) *env {
 	must(t, err)
 	e.gater, err = core.NewDutyGater(e.ctx, e.bmock, core.WithDutyGaterForT(t, func() time.Time { return e.gateT }, 2))
 	must(t, err)
-	e.gateT = genesis.Data.GenesisTime.Add(time.Duration(e.baseSlot) * sd)
+	e.genesis, e.slotDur = genesis.Data.GenesisTime, sd
+	e.gateT = e.genesis.Add(time.Duration(e.baseSlot) * sd)
 	verify, err := parsigex.NewEth2Verifier(e.bmock, pubshares)
 	must(t, err)
 	e.fh = &fakeHost{}
@@ -379,9 +392,28 @@ func (e *env) ownRoot(g dutygen.Gen, raw any, variant int) (root [32]byte, ok bo
 	if err != nil {
 		return root, false
 	}
+	if variant == 3 { // neighbouring fork
+		fe := ep - 1
+		if dom == signing.DomainApplicationBuilder {
+			fe = eth2p0.Epoch(e.boundary)
+		}
+		root, err = dutygen.SigningRootForkAt(e.ctx, e.bmock, dom, oroot, fe)
+
+		return root, err == nil
+	}
 	root, err = dutygen.SigningRoot(e.ctx, e.bmock, dom, ep, oroot, dutygen.Variant(variant))
 
 	return root, err == nil
+}
+
+// caseSlot is the slot the objects of a case are made for.
+func (e *env) caseSlot(spec CaseSpec) uint64 {
+	e.boundary = spec.Boundary
+	if spec.Boundary > 0 {
+		return spec.Boundary * e.spe
+	}
+
+	return e.baseSlot
 }
 
 func (e *env) sigTerm(sig tbls.Signature) string {
@@ -764,7 +796,17 @@ func propMatches(sub, agreed *eth2api.VersionedSignedProposal) (ok bool) {
 // prepare makes a fresh raw object of generator g for validator v at the case's slot, registers
 // it with the environment tables and returns it unsigned.
 func (e *env) prepare(g dutygen.Gen, family string, v int, slot uint64) any {
+	if g.IsAtt && e.boundary > 0 {
+		slot = e.boundary*e.spe - 1 // last slot of the previous fork ...
+	}
 	raw := g.New(e.t, slot, e.spe)
+	if g.IsAtt && e.boundary > 0 { // ... voting for a target in the new fork: the signing epoch is the target epoch
+		a := raw.(*eth2spec.VersionedAttestation)
+		d, err := a.Data()
+		must(e.t, err)
+		d.Target.Epoch = eth2p0.Epoch(e.boundary)
+		d.Source.Epoch = eth2p0.Epoch(e.boundary - 1)
+	}
 	val := e.vals[v]
 	switch family {
 	case "att":
@@ -799,6 +841,7 @@ func (e *env) prepare(g dutygen.Gen, family string, v int, slot uint64) any {
 		e.proposer[slot] = v
 		e.agreed[slot], e.agreedSigned[slot] = unsignedOf(e.t, p)
 	case "randao":
+		slot = slot/e.spe*e.spe + e.baseSlot%e.spe // the slot the Proposal request will name for this epoch
 		e.proposer[slot] = v
 		// the handler also awaits the proposal before returning
 		p := e.gens["proposal/deneb"].New(e.t, slot, e.spe).(*eth2api.VersionedSignedProposal)
@@ -932,7 +975,7 @@ func (e *env) runVapi(spec CaseSpec, ep endpoint) Case {
 	e.resetCase()
 	g := e.gens[spec.Gen]
 	e.curGen = g
-	slot := e.baseSlot
+	slot := e.caseSlot(spec)
 	var raws []any
 	for _, it := range spec.Items {
 		raws = append(raws, e.build(g, ep.family, it, slot))
@@ -1054,7 +1097,8 @@ func (e *env) runPeer(spec CaseSpec) Case {
 	e.resetCase()
 	g := e.gens[spec.Gen]
 	e.curGen = g
-	slot := e.baseSlot
+	slot := e.caseSlot(spec)
+	e.gateT = e.genesis.Add(time.Duration(slot) * e.slotDur) // "now" is the slot the objects are made for
 	set := core.ParSignedDataSet{}
 	randomKeys := map[core.PubKey]bool{}
 	for _, it := range spec.Items {
@@ -1092,6 +1136,11 @@ func (e *env) runPeer(spec CaseSpec) Case {
 		dutyType = core.DutyUnknown
 	}
 	duty := core.Duty{Slot: slot + uint64(spec.SlotAdd)*e.spe, Type: dutyType}
+	if spec.DutySlot != "" {
+		ds, err := strconv.ParseUint(spec.DutySlot, 10, 64)
+		must(e.t, err)
+		duty.Slot = ds
+	}
 	msg := &pbv1.ParSigExMsg{Duty: core.DutyToProto(duty)}
 	var skip string
 	func() {
@@ -1181,7 +1230,7 @@ func (e *env) runPeer(spec CaseSpec) Case {
 		errTerm = "(Some " + c.Err + ")"
 	}
 	c.Label = fmt.Sprintf("mkl lock (Peer (mkg %s %d %d %d 2) %s) [%s] 2 %s %s",
-		coqBool(typeValid), duty.Slot, e.baseSlot, e.spe, coqBool(derr == nil), strings.Join(items, "; "), errTerm, e.renderCalls(&c))
+		coqBool(typeValid), duty.Slot, slot, e.spe, coqBool(derr == nil), strings.Join(items, "; "), errTerm, e.renderCalls(&c))
 	c.NonTrivial = spec.Class != "valid"
 
 	return c
@@ -1235,6 +1284,7 @@ func sortedKeys(m map[string]func(it *ItemSpec)) []string {
 
 func (e *env) templatePaths(g dutygen.Gen, family string) []string {
 	e.resetCase()
+	e.boundary = 0
 	raw := e.build(g, family, genuine(0, selfIdx), e.baseSlot)
 
 	return leafPaths(raw)
@@ -1253,6 +1303,9 @@ func (e *env) pick(paths []string, k int) []string {
 
 	return out
 }
+
+// forkBoundaries are the first epochs of the forks the beacon mock schedules after genesis.
+var forkBoundaries = []uint64{2048, 50688}
 
 type genOut struct {
 	specs  []CaseSpec
@@ -1289,6 +1342,20 @@ func (e *env) genCases(perGenLeaves int) genOut {
 					}
 				}
 				one(k, alts[k])
+			}
+			// objects whose own signing epoch is the first epoch of a fork (attestations: slot still in
+			// the previous fork): signed for the own epoch (valid) / with the neighbouring fork's domain
+			for _, b := range forkBoundaries {
+				c := base
+				c.Boundary = b
+				c.Class = "fork_boundary_valid"
+				c.Items = []ItemSpec{genuine(e.r.Intn(outsider), selfIdx)}
+				add(c)
+				c.Class = "fork_boundary_neighbour_fork"
+				it := genuine(e.r.Intn(outsider), selfIdx)
+				it.Variant = 3
+				c.Items = []ItemSpec{it}
+				add(c)
 			}
 			paths := e.templatePaths(g, ep.family)
 			if ep.name == "SubmitBlindedProposal" { // VersionedSignedBlindedProposal has no Blinded field
@@ -1359,6 +1426,16 @@ func (e *env) genCases(perGenLeaves int) genOut {
 		one("gate_far_future", func(c *CaseSpec, _ *ItemSpec) { c.SlotAdd = 1000 })
 		one("gate_duty_type_unknown", func(c *CaseSpec, _ *ItemSpec) { c.DutyType = -1 })
 		one("gate_duty_type_sentinel", func(c *CaseSpec, _ *ItemSpec) { c.DutyType = 14 })
+		for _, b := range forkBoundaries {
+			one("fork_boundary_valid", func(c *CaseSpec, _ *ItemSpec) { c.Boundary = b })
+			one("fork_boundary_neighbour_fork", func(c *CaseSpec, it *ItemSpec) { c.Boundary = b; it.Variant = 3 })
+		}
+		// the gater window on absolute slots, validly signed objects inside: the edges of the window
+		// and slots so large that any time arithmetic on them wraps
+		now := e.baseSlot / e.spe
+		for _, ds := range []uint64{0, (now+2)*e.spe + e.spe - 1, (now + 3) * e.spe, (now+3)*e.spe + 1, 1 << 31, 1 << 53, 1 << 60, 1<<63 - 1, 1 << 63, 1<<63 + 12345, 1<<64 - 1} {
+			one("gate_slot:"+strconv.FormatUint(ds, 10), func(c *CaseSpec, _ *ItemSpec) { c.DutySlot = strconv.FormatUint(ds, 10) })
+		}
 		one("duty_type_signature_raw", func(c *CaseSpec, _ *ItemSpec) { c.DutyType = int(core.DutySignature) })
 		one("duty_type_confusion", func(c *CaseSpec, _ *ItemSpec) {
 			c.DutyType = int(core.DutyRandao)
